@@ -13,7 +13,27 @@ for d in $LIST; do
   git -C $WT checkout -q -- . ; git -C $WT reset -q --hard HEAD
   if ! git -C $WT apply $PWD/$d/patch.diff 2>/dev/null; then echo "$id: patch does not apply" | tee $d/check_result.txt; continue; fi
   : > $d/check_result.txt
-  for prop in ${PROPS:-C09 C10 C11 C12 C13 C15 C16 C18 C19}; do
+  # ALL=1: every check on every patch (done once, DESIGN 5); default: the checks whose translation units the patch touches, and C12 (whole library)
+  FILES=$(grep '^+++ b/src/' $PWD/$d/patch.diff | sed 's|^+++ b/src/||' | tr '\n' ' ')
+  SEL=""
+  for prop in C09 C10 C11 C12 C13 C15 C16 C18 C19; do
+    case $prop in
+      C09) T="component.cpp componententity.cpp model.cpp variable.cpp parentedentity.cpp utilities.cpp units.cpp reset.cpp" ;;
+      C10) T="entity.cpp namedentity.cpp importedentity.cpp parentedentity.cpp componententity.cpp variable.cpp reset.cpp units.cpp component.cpp model.cpp importsource.cpp utilities.cpp" ;;
+      C11) T="entity.cpp namedentity.cpp importedentity.cpp parentedentity.cpp componententity.cpp variable.cpp reset.cpp units.cpp component.cpp model.cpp importsource.cpp utilities.cpp" ;;
+      C12) T="ALWAYS" ;;
+      C13) T="annotator.cpp utilities.cpp" ;;
+      C15) T="logger.cpp issue.cpp importer.cpp annotator.cpp" ;;
+      C16) T="utilities.cpp units.cpp validator.cpp analyser.cpp" ;;
+      C18) T="analysermodel.cpp variable.cpp" ;;
+      C19) T="utilities.cpp model.cpp variable.cpp validator.cpp parentedentity.cpp" ;;
+    esac
+    hit=0; [ "$T" = ALWAYS ] && hit=1; [ "${ALL:-0}" = 1 ] && hit=1
+    for f in $FILES; do for t in $T; do [ "$f" = "$t" ] && hit=1; done; done
+    [ $hit = 1 ] && SEL="$SEL $prop"
+  done
+  echo "files: $FILES -> checks:$SEL" >> $d/check_result.txt
+  for prop in ${PROPS:-$SEL}; do
     start=$(date +%s)
     VERIF_REPO=$WT VERIF_CACHE=$SC/cache VERIF_OUTROOT=$SC timeout 2400 ./check $prop quick > $SC/out.txt 2>&1; rc=$?
     end=$(date +%s)
